@@ -408,6 +408,7 @@ func c01StoreCase(r *hx.Result, rng *hx.Rng, n int, allPairs bool, probes int) e
 			return err
 		}
 	}
+	r.Corr("c01 hist.new", "ok")
 	for k := 1; k <= n; k++ {
 		h, err := st.ReadTxHeader(uint64(k), false, false)
 		if err != nil {
@@ -415,6 +416,7 @@ func c01StoreCase(r *hx.Result, rng *hx.Rng, n int, allPairs bool, probes int) e
 		}
 		hi.hdrs[k] = h
 		hi.alhs[k] = h.Alh()
+		r.Corr("c01 hist.add "+hdrTok(h), hx.Hex(hi.alhs[k][:]))
 		r.Corr("c01 alh "+hdrTok(h), hx.Hex(hi.alhs[k][:]))
 		in := innerOf(h)
 		r.Corr("c01 inner "+hdrTok(h), hx.Hex(in[:]))
@@ -446,6 +448,10 @@ func c01StoreCase(r *hx.Result, rng *hx.Rng, n int, allPairs bool, probes int) e
 		if err != nil {
 			return fmt.Errorf("DualProof(%d,%d): %w", pr.s, pr.t, err)
 		}
+		// prover-side correspondence: the model's DualProof must be identical, field by field
+		r.Corr(fmt.Sprintf("c01 dproof %d %d", pr.s, pr.t), fmt.Sprintf("%s %s %s %s %s %s %s %s", hdrTok(p.SourceTxHeader), hdrTok(p.TargetTxHeader),
+			hx.Csv32(p.InclusionProof), hx.Csv32(p.ConsistencyProof), hx.Hex(p.TargetBlTxAlh[:]), hx.Csv32(p.LastInclusionProof),
+			lpTok(p.LinearProof), lapTok(p.LinearAdvanceProof)))
 		hi.probeDual(r, p, pr.s, pr.t, hi.alhs[pr.s], hi.alhs[pr.t], "honest")
 		nm := 3
 		if !allPairs {
